@@ -346,7 +346,7 @@ class SpecMixin:
             a, b = self.sev(env, args[0]), self.sev(env, args[1]); return z3.ULT(a, b)
         if name == 'prod':     # product of two non-constant integers: the shared abstract symbol (true multiplication inside `interpret prod` lemmas)
             a, b = self.sev(env, args[0]), self.sev(env, args[1])
-            if getattr(self, 'interpret_prod', False):
+            if getattr(self, 'interpret_prod', False) or z3.is_int_value(z3.simplify(a)) or z3.is_int_value(z3.simplify(b)):
                 return a * b
             return PROD(a, b)
         if name == 'unboxint':
